@@ -48,6 +48,10 @@ def frame_text(kind, i):
         return json.dumps({"type": "complete", "id": "x"})
     if kind == "error":
         return json.dumps({"type": "error", "id": "x", "payload": [{"message": f"e{i}"}, {"message": "second", "path": ["a"]}]})
+    if kind == "error_bare":  # an error frame without payload / with an empty payload object: still an error frame
+        return json.dumps({"type": "error", "id": "x"})
+    if kind == "error_empty":
+        return json.dumps({"type": "error", "id": "x", "payload": {}})
     if kind == "nonjson":
         return "this is not json {"
     if kind == "unknown":
@@ -188,6 +192,8 @@ def model(script, cfg, expected_vars):
             return {"subscribe": 1, "pongs": pongs, "yielded": yielded, "outcome": ("end",)}
         elif kind == "error":
             return {"subscribe": 1, "pongs": pongs, "yielded": yielded, "outcome": ("multi", [f"e{i}", "second"])}
+        elif kind in ("error_bare", "error_empty"):
+            return {"subscribe": 1, "pongs": pongs, "yielded": yielded, "outcome": ("multi", [])}
         else:
             return {"subscribe": 1, "pongs": pongs, "yielded": yielded, "outcome": ("invalid",)}
     return {"subscribe": 1, "pongs": pongs, "yielded": yielded, "outcome": ("end",)}
@@ -396,6 +402,13 @@ def enumerate_cases(tier):
             idx += 1
             yield {"kind": "fake", "script": [[k, j, False] for j, k in enumerate(combo)], "cfg": idx % len(CONFIGS),
                    "all_cfg": n <= (3 if tier == "quick" else 4)}
+    # supplementary alphabet (error frames without / with an empty payload), short scripts
+    for n in range(1, 4):
+        for combo in itertools.product(["ack", "next", "ping", "error_bare", "error_empty"], repeat=n):
+            if not any(k.startswith("error_") for k in combo):
+                continue
+            idx += 1
+            yield {"kind": "fake", "script": [[k, j, False] for j, k in enumerate(combo)], "cfg": idx % len(CONFIGS), "all_cfg": True}
     # generated subscription methods (sync config is refused by design): yield validated models of each next frame
     for otel in (False, True):
         yield {"kind": "generated", "_isolate": True, "otel": otel}
